@@ -290,6 +290,80 @@ pub proof fn lemma_default_tabs_wf(cols: int)
     reveal(tabs_sorted);
 }
 
+
+/// [C15] when every row is flagged the report is trivially sound
+pub proof fn lemma_dirty_sound_all(o: Terminal, f: Terminal)
+    requires
+        f.dirty_lines.0@.len() == o.dirty_lines.0@.len(),
+        forall|r: int| 0 <= r < o.rows ==> #[trigger] f.dirty_lines.0@[r],
+    ensures
+        f.dirty_sound(o),
+{
+}
+
+/// [C15] reflexivity
+pub proof fn lemma_dirty_sound_refl(o: Terminal)
+    ensures
+        o.dirty_sound(o),
+{
+}
+
+/// [C03] what `execute(fun)` does: exactly the postcondition of the control function that `fun` names
+pub open spec fn exec_post(o: Terminal, f: Terminal, fun: Function) -> bool {
+    match fun {
+        Function::Bs => post_bs(o, f),
+        Function::Cbt(n) => post_cbt(o, f, n),
+        Function::Cha(n) => post_cha(o, f, n),
+        Function::Cht(n) => post_cht(o, f, n),
+        Function::Cnl(n) => post_cnl(o, f, n),
+        Function::Cpl(n) => post_cpl(o, f, n),
+        Function::Cr => post_cr(o, f),
+        Function::Ctc(op) => post_ctc(o, f, op),
+        Function::Cub(n) => post_cub(o, f, n),
+        Function::Cud(n) => post_cud(o, f, n),
+        Function::Cuf(n) => post_cuf(o, f, n),
+        Function::Cup(row, col) => post_cup(o, f, row, col),
+        Function::Cuu(n) => post_cuu(o, f, n),
+        Function::Dch(n) => post_dch(o, f, n),
+        Function::Decaln => post_decaln(o, f),
+        Function::Decrc => post_rc(o, f),
+        Function::Decrst(modes) => post_decrst(o, f, modes),
+        Function::Decsc => post_sc(o, f),
+        Function::Decset(modes) => post_decset(o, f, modes),
+        Function::Decstbm(top, bottom) => post_decstbm(o, f, top, bottom),
+        Function::Decstr => post_decstr(o, f),
+        Function::Dl(n) => post_dl(o, f, n),
+        Function::Ech(n) => post_ech(o, f, n),
+        Function::Ed(scope) => post_ed(o, f, scope),
+        Function::El(scope) => post_el(o, f, scope),
+        Function::G1d4(cs) => post_g1d4(o, f, cs),
+        Function::Gzd4(cs) => post_gzd4(o, f, cs),
+        Function::Ht => post_ht(o, f),
+        Function::Hts => post_hts(o, f),
+        Function::Ich(n) => post_ich(o, f, n),
+        Function::Il(n) => post_il(o, f, n),
+        Function::Lf => post_lf(o, f),
+        Function::Nel => post_nel(o, f),
+        Function::Print(ch) => post_print(o, f, ch),
+        Function::Rep(n) => post_rep(o, f, n),
+        Function::Ri => post_ri(o, f),
+        Function::Ris => post_ris(o, f),
+        Function::Rm(modes) => post_rm(o, f, modes),
+        Function::Scorc => post_rc(o, f),
+        Function::Scosc => post_sc(o, f),
+        Function::Sd(n) => post_sd(o, f, n),
+        Function::Sgr(ops) => post_sgr(o, f, ops),
+        Function::Si => post_si(o, f),
+        Function::Sm(modes) => post_sm(o, f, modes),
+        Function::So => post_so(o, f),
+        Function::Su(n) => post_su(o, f, n),
+        Function::Tbc(scope) => post_tbc(o, f, scope),
+        Function::Vpa(n) => post_vpa(o, f, n),
+        Function::Vpr(n) => post_vpr(o, f, n),
+        Function::Xtwinops(op) => post_xtwinops(o, f, op),
+    }
+}
+
 // GENERATED-FRAMES-BEGIN (gen_frames.py)
 impl Terminal {
     /// frame: every group except {buffer, dirty} is exactly what it was in `o`
@@ -403,6 +477,21 @@ impl Terminal {
         &&& self.tabs == o.tabs
         &&& self.top_margin == o.top_margin && self.bottom_margin == o.bottom_margin
         &&& self.saved_ctx == o.saved_ctx
+        &&& self.charsets == o.charsets && self.active_charset == o.active_charset
+        &&& self.other_buffer == o.other_buffer && self.alternate_saved_ctx == o.alternate_saved_ctx && self.active_buffer_type == o.active_buffer_type
+        &&& self.cols == o.cols && self.rows == o.rows
+        &&& self.scrollback_limit == o.scrollback_limit
+        &&& self.xtwinops == o.xtwinops
+    }
+    /// frame: every group except {dirty} is exactly what it was in `o`
+    pub open spec fn frame_dirty(&self, o: Terminal) -> bool {
+        &&& self.cursor.col == o.cursor.col && self.cursor.row == o.cursor.row && self.pending_wrap == o.pending_wrap
+        &&& self.buffer == o.buffer
+        &&& self.pen == o.pen
+        &&& self.tabs == o.tabs
+        &&& self.top_margin == o.top_margin && self.bottom_margin == o.bottom_margin
+        &&& self.saved_ctx == o.saved_ctx
+        &&& self.insert_mode == o.insert_mode && self.origin_mode == o.origin_mode && self.auto_wrap_mode == o.auto_wrap_mode && self.new_line_mode == o.new_line_mode && self.cursor_keys_mode == o.cursor_keys_mode && self.cursor.visible == o.cursor.visible
         &&& self.charsets == o.charsets && self.active_charset == o.active_charset
         &&& self.other_buffer == o.other_buffer && self.alternate_saved_ctx == o.alternate_saved_ctx && self.active_buffer_type == o.active_buffer_type
         &&& self.cols == o.cols && self.rows == o.rows
